@@ -101,6 +101,20 @@ def constants():
     mv = re.search(r"if not 0 <= leaf_version <= (\d+):\n\s+raise BTClibValueError", lh)
     if not mv or "leaf_version.to_bytes(1, 'big') + var_bytes.serialize(script)" not in lh.replace('"', "'"):
         raise ValueError("taproot: leaf_hash version range guard / preimage of unexpected shape")
+    from btclib.script import script_pub_key as _spk
+    ap = _src(_spk.assert_p2tr)
+    m_len = re.search(r"bytes_from_octets\(script_pub_key, (\d+)\)", ap)
+    m_v = re.search(r"if script_pub_key\[0\] != (\d+):", ap)
+    m_p = re.search(r"if script_pub_key\[1\] != (\d+):", ap)
+    import textwrap
+    p2 = ast.unparse(ast.parse(textwrap.dedent(inspect.getsource(_spk.ScriptPubKey.p2tr.__func__))))
+    if not (m_len and m_v and m_p) or "pub_key = output_pubkey(internal_key, script_path)[0]" not in p2 \
+            or "serialize(['OP_1', pub_key])" not in p2.replace('"', "'"):
+        raise ValueError("taproot: assert_p2tr / ScriptPubKey.p2tr of unexpected shape")
+    from btclib.script.script import serialize as _ser
+    probe = _ser(["OP_1", bytes(range(32))])
+    if probe[:2] != bytes([int(m_v.group(1)), int(m_p.group(1))]) or probe[2:] != bytes(range(32)) or len(probe) != int(m_len.group(1)):
+        raise ValueError("taproot: serialize(['OP_1', key]) is not version byte, push marker, key")
     out = "/-- BIP341 tags, as passed to `tagged_hash` by leaf_hash / tree_helper+check_output_pubkey / _tap_tweak -/\n"
     out += f"def TAG_LEAF : Btc.Bytes := {_blit(leaf[0])}\n"
     out += f"def TAG_BRANCH : Btc.Bytes := {_blit(branch[0])}\n"
@@ -110,6 +124,9 @@ def constants():
     out += f"def CONTROL_HEAD : Nat := {head}\ndef NODE_SIZE : Nat := {node}\n"
     out += f"def LEAF_MASK : Nat := {mask_c}\ndef PARITY_MASK : Nat := {int(par[0])}\n"
     out += f"/-- `leaf_hash` refuses a version outside `0..LEAF_VERSION_MAX` -/\ndef LEAF_VERSION_MAX : Int := {int(mv.group(1))}\n"
+    out += "/-- `assert_p2tr`: total length, witness-version opcode (OP_1), push marker (32) -/\n"
+    out += f"def P2TR_LEN : Nat := {int(m_len.group(1))}\ndef P2TR_VERSION_OP : UInt8 := {int(m_v.group(1))}\n"
+    out += f"def P2TR_PUSH : UInt8 := {int(m_p.group(1))}\n"
     out += f"def NUMS_PREFIX : UInt8 := {int(mp.group(1), 16)}\n"
     out += f"def NUMS_X : Btc.Bytes := {_blit(bytes.fromhex(mm.group(1)))}\n"
     return out
